@@ -840,7 +840,11 @@ func range_(thread *Thread, b *Builtin, args Tuple, kwargs []Tuple) (Value, erro
 		return nil, nameErr(b, "step argument must not be zero")
 	}
 
-	return rangeValue{start: start, stop: stop, step: step, len: rangeLen(start, stop, step)}, nil
+	n := rangeLen(start, stop, step)
+	if n < 0 {
+		return nil, nameErr(b, "too many elements")
+	}
+	return rangeValue{start: start, stop: stop, step: step, len: n}, nil
 }
 
 // A rangeValue is a comparable, immutable, indexable sequence of integers
@@ -862,15 +866,18 @@ func (r rangeValue) Iterate() Iterator { return &rangeIterator{r, 0} }
 
 // rangeLen calculates the length of a range with the provided start, stop, and step.
 // caller must ensure that step is non-zero.
+// The distance between start and stop may exceed the largest int, so it
+// and the quotient are computed as uint (which cannot overflow, even for
+// step == MinInt); the result is negative iff the length does not fit in an int.
 func rangeLen(start, stop, step int) int {
 	switch {
 	case step > 0:
 		if stop > start {
-			return (stop-1-start)/step + 1
+			return int(uint(stop-1-start)/uint(step) + 1)
 		}
 	case step < 0:
 		if start > stop {
-			return (start-1-stop)/-step + 1
+			return int(uint(start-1-stop)/uint(-step) + 1)
 		}
 	default:
 		panic("rangeLen: zero step")
